@@ -48,6 +48,12 @@ def apply_junk(data, junk):
         b = bytearray(data)
         b[off] = junk["val"] & 0xFF if (junk["val"] & 0xFF) != b[off] else (b[off] ^ 0x01)
         return bytes(b)
+    if k == "utf8":
+        # two adjacent bytes replaced by a valid two-byte UTF-8 sequence (text stays decodable, but is not ASCII)
+        off = junk["off"] % max(1, len(data) - 1)
+        b = bytearray(data)
+        b[off:off + 2] = bytes.fromhex(junk.get("seq", "c3a9"))
+        return bytes(b)
     if k == "garbage":
         import random
         r = random.Random(junk["seed"])
